@@ -10,6 +10,7 @@ import (
 	"math"
 	"os"
 	"path/filepath"
+	"regexp"
 	"sort"
 	"strings"
 	"testing"
@@ -76,6 +77,7 @@ type kworld struct {
 	maxCompared                 int
 	pubPass                     string
 	oddRemarks                  int
+	oddPass                     int // imported wallets whose passphrase lies outside the create-time rule
 }
 
 func (k *kworld) logf(f string, a ...interface{}) { k.trace = append(k.trace, fmt.Sprintf(f, a...)) }
@@ -390,7 +392,13 @@ func propC0405(t *rapid.T) {
 						ent[i] = 0
 					}
 				}
-				pass := fmt.Sprintf("pw%dX%s", len(k.wallets), rapid.OneOf(rapid.StringMatching(`[a-zA-Z0-9@#$%^&]{4,20}`), rapid.StringMatching(`[a-zA-Z0-9@#$%^&]{21,36}`)).Draw(t, "pass"))
+				// a wallet that enters by its mnemonic brings its passphrase along: the charset / length rule
+				// of CreateWallet does not apply to it (imports accept any passphrase), so a third of these
+				// passphrases lie outside that rule
+				pass := fmt.Sprintf("pw%dX%s", len(k.wallets), rapid.OneOf(rapid.StringMatching(`[a-zA-Z0-9@#$%^&]{4,20}`), rapid.StringMatching(`[a-zA-Z0-9@#$%^&]{21,36}`), rapid.StringMatching(`[a-zA-Z0-9 !_.,:;*()+=/-]{1,3}[ !_.,:;*()+=/-][a-zA-Z0-9 !_.,:;*()+=/-]{0,40}`)).Draw(t, "pass"))
+				if !regexp.MustCompile(`^[0-9a-zA-Z@#$%^&]{6,40}$`).MatchString(pass) {
+					k.oddPass++
+				}
 				keys, _ := sim.EntropyFor(ent, pass)
 				if keys == nil {
 					t.Skip("no usable entropy")
@@ -740,7 +748,7 @@ func propC0405(t *rapid.T) {
 	}
 	key := hkey(strings.Join(k.trace, "\n"))
 	c04.Case(key, shared >= 1 && k.maxCompared >= 3, fmt.Sprintf("instances:%d", len(k.inst)), fmt.Sprintf("wallets:%d", len(k.wallets)))
-	c05.Case(key, k.refused >= 1 && k.accepted >= 1 && k.restarts >= 1, fmt.Sprintf("refused>=1:%v", k.refused >= 1), fmt.Sprintf("restarts>=1:%v", k.restarts >= 1), fmt.Sprintf("unusual-remark:%v", k.oddRemarks >= 1))
+	c05.Case(key, k.refused >= 1 && k.accepted >= 1 && k.restarts >= 1, fmt.Sprintf("refused>=1:%v", k.refused >= 1), fmt.Sprintf("restarts>=1:%v", k.restarts >= 1), fmt.Sprintf("unusual-remark:%v", k.oddRemarks >= 1), fmt.Sprintf("import-passphrase-outside-create-rule:%v", k.oddPass >= 1))
 	c05.Label("byte-strings-scanned", scanned)
 	c05.Label("secret-patterns", len(all))
 	if shared >= 1 && k.maxCompared >= 3 {
